@@ -94,10 +94,13 @@ fn scenario_from_json(v: &Value) -> Scenario {
     };
     Scenario {
         name: v["name"].as_str().unwrap().to_string(),
-        preset: if v["preset"].as_str() == Some("DiagMclmc") {
-            Preset::DiagMclmc
-        } else {
-            Preset::DiagNuts
+        preset: match v["preset"].as_str() {
+            Some("DiagMclmc") => Preset::DiagMclmc,
+            Some("LowRankNuts") => Preset::LowRankNuts,
+            Some("LowRankMclmc") => Preset::LowRankMclmc,
+            Some("FlowNuts") => Preset::FlowNuts,
+            Some("FlowMclmc") => Preset::FlowMclmc,
+            _ => Preset::DiagNuts,
         },
         chains: v["chains"].as_u64().unwrap() as usize,
         cores: v["cores"].as_u64().unwrap() as usize,
@@ -323,6 +326,20 @@ fn scenarios_c10(tier: Tier) -> Vec<Scenario> {
                     s.seed = seed;
                     out.push(s);
                 }
+            }
+        }
+    }
+    // the low-rank presets: chain construction (per-chain random streams) and a plain run (the flow
+    // presets need a model with a normalising flow, which the scheduler model does not have)
+    for preset in [Preset::LowRankNuts, Preset::LowRankMclmc] {
+        for &(ch, co) in &[(2usize, 1usize), (2, 2)] {
+            for sc in [vec![], vec![Op::Pause, Op::Resume]] {
+                let mut s = base(
+                    format!("{preset:?}/c{ch}k{co}/{}/seed42", script_name(&sc)),
+                    preset, ch, co, sc.clone(), Terminal::WaitLong, 1,
+                );
+                s.seed = 42;
+                out.push(s);
             }
         }
     }
@@ -638,6 +655,24 @@ fn main() {
         "max_executions_per_scenario": max_exec,
         "draws_per_chain": 3,
     });
+    if id == "C10" {
+        // per-chain random streams, all presets the scheduler model supports
+        let proto = base(String::new(), Preset::DiagNuts, 2, 1, vec![], Terminal::WaitLong, 0);
+        let mut p = Partial::new();
+        let checks: Vec<(&str, Option<String>)> = vec![
+            ("DiagNuts", model::stream_check(&scenario::nuts_settings(&proto))),
+            ("DiagMclmc", model::stream_check(&scenario::mclmc_settings(&proto))),
+            ("LowRankNuts", model::stream_check(&scenario::lowrank_nuts_settings(&proto))),
+            ("LowRankMclmc", model::stream_check(&scenario::lowrank_mclmc_settings(&proto))),
+        ];
+        for (name, r) in checks {
+            p.evaluations += 3;
+            if let Some(msg) = r {
+                p.violation(format!("C10/chain-ignores-its-random-stream/{name}"), msg, json!({"preset": name}));
+            }
+        }
+        report.merge(p);
+    }
     let t0 = Instant::now();
     let machinery: Mutex<Option<String>> = Mutex::new(None);
     let budget_s: f64 = std::env::var("VERIF_BUDGET_S").ok().and_then(|s| s.parse().ok()).unwrap_or(tier.pick(300.0, 1200.0));
